@@ -552,8 +552,8 @@ def directed_retry(ctx, txns, quick: bool):
     na = sum(1 for a in probe["schedule"] if a == "A0") - i + 16      # the rest of the commit + a retry
     ng = sum(1 for a in probe["schedule"] if a == "G")
     combos = [(j, k) for j in range(0, na) for k in range(1, ng + 1)]
-    if quick and len(combos) > 120:
-        combos = ctx.rng.sample(combos, 120)
+    if quick and len(combos) > 90:
+        combos = ctx.rng.sample(combos, 90)       # (directed_contended covers the same window with a third parameter)
     for j, k in combos:
         seg = [("A0", i), ("K", 10**6), ("A1", 10**6), ("A0", j), ("G", k), ("A0", 10**6), ("G", 10**6)]
         yield [("segments", seg)], run_case(ctx, txns, segment_chooser(seg), 5000)
@@ -792,7 +792,7 @@ def run(ctx) -> None:
     for ti, txns in enumerate(TXSETS):
         if quick and ti == 4:
             continue                                # (append + adopt together: thorough tier)
-        runs = list(explore(ctx, txns, 5000, 2 if quick else 3, (40 if ti < 2 else 25 if ti == 3 else 12 if ti < 5 else 6) if quick else 900 if ti < 5 else 300))
+        runs = list(explore(ctx, txns, 5000, 2 if quick else 3, (40 if ti < 2 else 25 if ti == 3 else 12 if ti < 5 else 4) if quick else 900 if ti < 5 else 300))
         if ti == 0 or not quick:
             runs += list(directed(ctx, txns, quick))
         elif ti == 3:
@@ -801,7 +801,7 @@ def run(ctx) -> None:
         if ti == 2:
             runs += list(directed_retry(ctx, txns, quick))
         if ti in CONTENDED:
-            runs += list(directed_contended(ctx, txns, quick, cap=30 if ti == 2 else 60 if ti == 5 else 40))
+            runs += list(directed_contended(ctx, txns, quick, cap=12 if ti == 2 else 40 if ti == 5 else 24))
         if ti == 0:
             runs += list(directed_two_runs(ctx, txns, quick))
             runs += list(directed_delayed_flip(ctx, txns, quick))
@@ -813,8 +813,8 @@ def run(ctx) -> None:
             for who in range(len(txns)):
                 if txns[who]["kind"] == "append":
                     runs += list(directed_slow_steps(ctx, txns, quick, who))
-        runs += list(random_two_runs(ctx, txns, (8 if ti < 5 else 3) if quick else 120))
-        for k in range((10 if ti < 5 else 4) if quick else 200):
+        runs += list(random_two_runs(ctx, txns, (8 if ti < 5 else 2) if quick else 120))
+        for k in range((10 if ti < 5 else 3) if quick else 200):
             seed = ctx.rng.randrange(1 << 30)
             runs.append(([("random", seed)], run_case(ctx, txns, lambda sc, seed=seed: S.random_chooser(_r.Random(seed), 0.4), 5000)))
         for dev, out in runs:
